@@ -572,3 +572,4 @@ META = {
 META['explanation'] += ' ' + 'Further: every CFG path from the coverage != 1 branch to the save inserts the Markov pseudo-count; memoisation discipline; name-based uuids are deterministic.'
 
 META['explanation'] += ' ' + 'Round 13: a line that has been counted in N is yielded on every path (no skip between the count and the yield).'
+META['explanation'] += ' ' + 'Round 14: a K<n> section found by the recursive call is in the found list the counters are fed from.'
